@@ -213,7 +213,7 @@ pub fn run(ctx: &Ctx) -> Outcome {
     out.extra.insert("exhaustive_note".into(), json!(format!("the binary search depends only on (table length, rank of the query): complete for lengths 0..={nmax} x all ranks x 3 trailers; everything else sampled")));
     // (b)
     let strat = (prop_oneof![4 => gens::arb_zone(ZoneCfg { max_trans: 24, leaps: true, wide_times: true }), 1 => gens::arb_aligned_zone(), 2 => gens::arb_leap_adjacent_zone()], proptest::collection::vec(gens::arb_unix_time(), 0..6)).prop_map(|(zone, seeds)| LookupCase { zone, us: vec![], seeds });
-    let cases = ctx.tier.pick(4_000u32, 150_000u32);
+    let cases = ctx.tier.pick(12_000u32, 150_000u32);
     let rs = par_shards(16, |shard, st| pt_shard(ctx, "lookup", shard, cases, &strat, st, check_lookup));
     out.absorb_all(rs);
     if out.failure.is_some() {
